@@ -146,7 +146,12 @@ def ctFilter (r : Ct) (p : Nat → Bool) : Ct :=
 
 def evalBody (body : U256Body) (a b : Nat) : Ct :=
   match body with
-  | .bitsLe op bound => ctFilter (bigOp op a b) (fun r => decide (bits r ≤ bound))
+  | .bitsLe op bound =>
+      -- Evaluation shortcut for the executable model only (the value is the same, `bitsLe_shl_shortcut`): a
+      -- non-zero value shifted left by more than `bound` bits has more than `bound` bits, so the test fails;
+      -- do not materialise it. What the Rust code pays for that shift is `Lemmas.shlWork`.
+      if op = .shl ∧ a ≠ 0 ∧ b > bound then .decline
+      else ctFilter (bigOp op a b) (fun r => decide (bits r ≤ bound))
   | .geThenSub => if a ≥ b then bigOp .sub a b else .decline
   | .nonZeroThen op => if b = 0 then .decline else bigOp op a b
   | .ifZeroNoneElse op => if b = 0 then .decline else bigOp op a b
